@@ -99,17 +99,43 @@ def make_array(spec, force_c=False):
         return big[::2, ::2]
     if lay == 'neg':
         return np.ascontiguousarray(a[::-1, ::-1])[::-1, ::-1]
+    if lay == 'strided23':                       # a[::2, ::3] of a larger array
+        big = np.zeros((a.shape[0] * 2, a.shape[1] * 3), dtype=dt)
+        big[::2, ::3] = a
+        return big[::2, ::3]
+    if lay == 'Tstrided':                        # transposed strided view
+        big = np.zeros((a.shape[1] * 3, a.shape[0] * 2), dtype=dt)
+        v = big[::3, ::2].T
+        v[...] = a
+        return v
+    if lay in ('nowrite', 'Fnowrite'):           # read-only buffers
+        b = np.asfortranarray(a) if lay == 'Fnowrite' else np.ascontiguousarray(a)
+        b.setflags(write=False)
+        return b
     raise ValueError(lay)
 
 
 def make_dataset(case, force_c=False):
-    ds = xr.Dataset({name: (('y', 'x'), make_array(case['layers'][name], force_c)) for name in case['names']})
+    dims = tuple(case.get('dims') or ('y', 'x'))
+    chunks = case.get('dask') or {}
+
+    def arr(name):
+        a = make_array(case['layers'][name], force_c)
+        if name in chunks:
+            import dask.array as da
+            a = da.from_array(np.ascontiguousarray(a), chunks=tuple(tuple(c) for c in chunks[name]))
+        return a
+    ds = xr.Dataset({name: (dims, arr(name)) for name in case['names']})
     cd = case.get('coords')
     if cd:
         rows, cols = case['shape']
         ys = np.arange(rows, dtype='float64') * 0.5 + 10
         xs = np.arange(cols, dtype='float64') * 2.0 - 3
-        ds = ds.assign_coords(y=ys[::-1] if cd == 'desc' else ys, x=xs)
+        if cd == 'negfrac':        # negative origin, fractional spacing, x != y
+            ys, xs = -1234.5 - 0.37 * np.arange(rows), -0.25 + 0.125 * np.arange(cols)
+        elif cd == 'big':          # large origin and spacing
+            ys, xs = 4.0e6 + 1.0e6 * np.arange(rows), -7.5e6 + 2.5e5 * np.arange(cols)
+        ds = ds.assign_coords({dims[0]: ys[::-1] if cd == 'desc' else ys, dims[1]: xs})
     return ds
 
 
@@ -687,6 +713,186 @@ def run_sequences(ctx, local, pending):
                    extra={'step_what': 'temporary Dataset #%d in a loop (fresh object, same variable names)' % q})
 
 
+# ---------------------------------------------------------------------------
+# theme streams (appended after the earlier ones): layouts per argument, precision, dask, derived rasters, parameters,
+# coordinates, degenerate shapes
+# ---------------------------------------------------------------------------
+THEMES = ['layout-arg', 'decimal', 'tiny', 'f32max', 'ulp', 'dask', 'dupvars', 'emptyvars', 'dims-coords', 'allnan', 'allequal',
+          'singlevalid', 'shape11', 'shape22', 'layout-arg', 'dask']
+INEXACT_STATS = ('sum', 'mean', 'std', 'median')
+
+
+def split_chunks(rng, n, mode):
+    if mode == 'single' or n == 1:
+        return [n]
+    if mode == 'ones':
+        return [1] * n
+    out = []
+    while sum(out) < n:
+        out.append(rng.randint(1, max(1, n - sum(out))))
+    return out
+
+
+def regen_layers(rng, case, rows, cols, value):
+    """new data for every layer; value(name, dtype) -> float"""
+    case['shape'] = [rows, cols]
+    for n in case['names']:
+        sp = case['layers'][n]
+        sp['data'] = [[tok_json(value(n, sp['dtype'])) for _ in range(cols)] for _ in range(rows)]
+
+
+def gen_theme_case(rng, i):
+    theme = THEMES[i % len(THEMES)]
+    case = gen_case(rng, i // len(THEMES) * len(FUNCS) + (i % len(FUNCS)), True)
+    rows, cols = case['shape']
+    if rows * cols > 60:
+        rows, cols = 3, 4
+        regen_layers(rng, case, rows, cols, lambda n, dt: float(rng.randint(0, 3)))
+    fn = case['fn']
+    used = selected_vars(case) + ([case['ref_var']] if case['ref_var'] else [])
+    refint = fn in ('rank', 'popularity')
+    floatnames = [n for n in selected_vars(case)]
+    if theme in ('decimal', 'f32max', 'ulp') and fn == 'cell_stats' and case['stat'] in INEXACT_STATS:
+        case['stat'] = 'max' if i % 2 else 'min'
+        case.pop('stat_default', None)
+    if theme == 'tiny' and fn == 'cell_stats' and case['stat'] in ('mean', 'std'):
+        case['stat'] = 'sum'
+    if theme == 'layout-arg':
+        # every argument position in turn gets an unusual layout, the others stay C-contiguous
+        target = used[(i // len(THEMES)) % len(used)]
+        for n in case['names']:
+            case['layers'][n]['layout'] = 'C'
+        case['layers'][target]['layout'] = rng.choice(['strided23', 'Tstrided', 'nowrite', 'Fnowrite', 'F', 'neg', 'strided'])
+        if rng.random() < 0.3:
+            for n in used:
+                case['layers'][n]['layout'] = rng.choice(['strided23', 'Tstrided', 'nowrite', 'Fnowrite', 'F', 'neg', 'C'])
+    elif theme in ('decimal', 'tiny', 'f32max', 'ulp'):
+        for n in floatnames:
+            case['layers'][n]['dtype'] = 'float32' if (theme == 'f32max' and rng.random() < 0.6) else 'float64'
+        if case['ref_var'] and not refint:
+            case['layers'][case['ref_var']]['dtype'] = 'float64'
+        base = [0.1, 0.2, 0.30000000000000004, 0.1 + 1e-9, 1.0, 2.5, 0.7]
+
+        def value(n, dt):
+            if n == case['ref_var'] and refint:
+                return float(rng.randint(1, len(floatnames)))
+            if theme == 'decimal':
+                return rng.choice(base)
+            if theme == 'tiny':
+                return rng.randint(-3, 6) * 2.0 ** rng.choice([-100, -100, -30, -120]) if False else rng.randint(-3, 6) * 2.0 ** -100
+            if theme == 'f32max':
+                big = [3.4028234663852886e38, -3.4028234663852886e38, 1.0e38, 3.0e38, 1.7e38, -1.0e38]
+                v = rng.choice(big + [1.0, 0.0])
+                return float(np.float32(v)) if dt == 'float32' else v * rng.choice([1.0, 1.0, 1e200])
+            b = rng.choice([1.0, 2.0, 0.5, 0.1, 3.0])          # ulp: equal to, and one ulp around, other cells
+            return rng.choice([b, b, math.nextafter(b, math.inf), math.nextafter(b, -math.inf)])
+        regen_layers(rng, case, rows, cols, value)
+    elif theme == 'dask':
+        import itertools  # noqa
+        case['dask'] = {}
+        mode = rng.choice(['irregular', 'ones', 'single', 'irregular'])
+        for k, n in enumerate(used):
+            m = mode if rng.random() < 0.7 else rng.choice(['irregular', 'ones', 'single'])      # per-argument different chunkings
+            if rng.random() < 0.85:
+                case['dask'][n] = [split_chunks(rng, rows, m), split_chunks(rng, cols, m)]
+            case['layers'][n]['layout'] = 'C'
+    elif theme == 'dupvars':
+        dv = selected_vars(case)
+        case['data_vars'] = dv + [rng.choice(dv)] + ([rng.choice(dv)] if rng.random() < 0.4 else [])
+        rng.shuffle(case['data_vars'])
+    elif theme == 'emptyvars':
+        case['data_vars'] = []                      # falsy: means "all layers"
+    elif theme == 'dims-coords':
+        case['dims'] = rng.choice([['lat', 'lon'], ['row', 'col'], ['y', 'x']])
+        case['coords'] = rng.choice(['negfrac', 'big', 'desc', 'asc'])
+    elif theme in ('allnan', 'allequal', 'singlevalid'):
+        fl = [n for n in selected_vars(case)]
+        for n in fl:
+            case['layers'][n]['dtype'] = 'float64'
+        nanlayer = rng.choice(fl)
+        valid = (rng.randrange(rows), rng.randrange(cols))
+        cellno = [0]
+
+        def value(n, dt):
+            if n == case['ref_var'] and refint:
+                return float(rng.randint(1, len(fl)))
+            if not dt.startswith('float'):
+                return 2.0
+            if theme == 'allnan':
+                return float('nan') if n == nanlayer or rng.random() < 0.2 else 2.0
+            return 2.0
+        regen_layers(rng, case, rows, cols, value)
+        if theme == 'singlevalid':
+            sp = case['layers'][nanlayer]
+            sp['data'] = [['nan' if (y, x) != valid else 5.0 for x in range(cols)] for y in range(rows)]
+    elif theme in ('shape11', 'shape22'):
+        r = 1 if theme == 'shape11' else 2
+        regen_layers(rng, case, r, r, lambda n, dt: float(rng.randint(1, 2)) if (n == case['ref_var'] and refint) else float(rng.randint(0, 3)))
+    case['theme'] = theme
+    return case
+
+
+def derive(rng, ds, case):
+    """a Dataset derived from an already processed one; returns (derived, its case, description)"""
+    rows, cols = case['shape']
+    kind = rng.choice(['copy', 'slice', 'astype', 'assign_coords', 'isel-rev'])
+    base = dict(case)
+    if kind == 'copy':
+        d = ds.copy(deep=rng.random() < 0.5)
+    elif kind == 'slice' and rows >= 2 and cols >= 2:
+        d = ds.isel(y=slice(rng.randrange(2), None), x=slice(None, None, 2))
+    elif kind == 'isel-rev':
+        d = ds.isel(y=slice(None, None, -1))
+    elif kind == 'astype':
+        d = ds.copy()
+        for nme in selected_vars(case):        # the data layers only: a float reference is outside rank / popularity's domain
+            d[nme] = d[nme].astype('float64')
+    else:
+        kind = 'assign_coords'
+        d = ds.assign_coords(y=np.arange(rows) * 3.0, x=np.arange(cols) * -1.5)
+    any_name = case['names'][0]
+    base['shape'] = list(np.asarray(d[any_name].values).shape)
+    return d, snapshot_case(base, d), kind
+
+
+def run_themes(ctx, local, pending):
+    n = 260 if ctx.quick() else 4000
+    for i in range(n):
+        case = gen_theme_case(ctx.rng, i)
+        ctx.count('theme/%s' % case['theme'])
+        check_case(ctx, local, case, pending)
+    # derived datasets, repeated calls, interleaved arguments
+    nd = 60 if ctx.quick() else 800
+    for q in range(nd):
+        rng = ctx.rng
+        base = gen_case(rng, q, True)
+        if base['shape'][0] * base['shape'][1] > 60:
+            continue
+        for nme in base['names']:
+            base['layers'][nme]['layout'] = 'C'
+        base['coords'] = rng.choice(['asc', 'desc'])
+        ds = make_dataset(base)
+        c0 = snapshot_case(base, ds)
+        ctx.count('derived/%s' % base['fn'])
+        check_case(ctx, local, c0, pending, ds=ds, extra={'step_what': 'first call'})
+        check_case(ctx, local, c0, pending, ds=ds, extra={'step_what': 'the same call repeated'})
+        d, cd, kind = derive(rng, ds, c0)
+        check_case(ctx, local, cd, pending, ds=d, extra={'step_what': 'call on a dataset derived by %s from an already processed one' % kind})
+        # interleave other arguments on the original object, then the original call again
+        alt = dict(c0)
+        if alt['fn'] == 'cell_stats':
+            alt['stat'] = rng.choice([st for st in STATS if st != c0['stat']])
+            alt.pop('stat_default', None)
+        else:
+            dv = selected_vars(alt)
+            alt['data_vars'] = list(reversed(dv)) if len(dv) > 1 else dv
+        check_case(ctx, local, alt, pending, ds=ds, extra={'step_what': 'interleaved call with other arguments on the same object'})
+        check_case(ctx, local, c0, pending, ds=ds, extra={'step_what': 'original call again after derived / interleaved calls'})
+        after = snapshot_case(base, ds)
+        if not same_values(c0, after):
+            ctx.violation('oracle', '%s modified its input dataset' % base['fn'], dict(c0))
+
+
 def flush_model(ctx, local, pending):
     if ctx.model is None or not pending:
         return
@@ -712,6 +918,9 @@ def run(ctx):
     flush_model(ctx, local, pending)
     pending = []
     run_sequences(ctx, local, pending)
+    flush_model(ctx, local, pending)
+    pending = []
+    run_themes(ctx, local, pending)
     flush_model(ctx, local, pending)
     ctx.exhaustive = False
 
